@@ -149,7 +149,88 @@ def step (g : Group) (toks : List String) : Group × String :=
   | ["ls"] => (g, dump g)
   | _ => (g, "bad-op")
 
-def machine : Machine := { σ := Group, init := {}, step := step }
+/-! ## readers that stay open across writes, rotations and prunes -/
+
+structure St where
+  g : Group := {}
+  rs : List (String × Reader) := []
+
+def findReader (rs : List (String × Reader)) (n : String) : Option Reader :=
+  (rs.find? (·.1 = n)).map (·.2)
+
+def setReader (rs : List (String × Reader)) (n : String) (r : Reader) : List (String × Reader) :=
+  (rs.filter (·.1 ≠ n)) ++ [(n, r)]
+
+def raceWrites (g : Group) : List Bytes → Option Group
+  | [] => some g
+  | d :: ds =>
+    match writeSync P S g d with
+    | some g' => raceWrites (checkHeadSizeLimit g').1 ds
+    | none => none
+
+def stepR (st : St) (toks : List String) : St × String :=
+  let g := st.g
+  match toks with
+  | "ropen" :: rest =>
+    match kv rest "name", natOf rest "idx" with
+    | some n, some i =>
+      if !g.isOpen then (st, "bad-op") else
+      if i > g.maxIndex then (st, "err-eof") else
+      ({ g := readerOpen g i, rs := setReader st.rs n { idx := i } }, "ok")
+    | _, _ => (st, "bad-op")
+  | "rsearch" :: rest =>
+    match kv rest "name", intOf rest "h", natOf rest "ign" with
+    | some n, some h, some ign =>
+      if !g.isOpen then (st, "bad-op") else
+      let idxs := (List.range' g.minIndex (g.maxIndex + 1 - g.minIndex)).reverse
+      let (r, low) := searchIdx P g h (ign ≠ 0) idxs (-1) (g.maxIndex + 1)
+      let g' := touchFrom g low
+      match r with
+      | .found rs =>
+        let c := (streamFrom g low).length - rs.length
+        ({ g := g', rs := setReader st.rs n (readerAfter g' (g'.maxIndex + 1) low c) }, "found")
+      | .notFound => ({ st with g := g' }, "not-found")
+      | .err e => ({ st with g := g' }, "err:" ++ showErr e)
+    | _, _, _ => (st, "bad-op")
+  | "rnext" :: rest =>
+    match kv rest "name", natOf rest "n" with
+    | some n, some k =>
+      match findReader st.rs n with
+      | some r =>
+        let (ds, e, r', g') := readerNext P k g r
+        ({ g := g', rs := setReader st.rs n r' },
+          s!"recs={showRecs ds} end=" ++ (match e with
+            | none => "more"
+            | some x => showEnd x))
+      | none => (st, "bad-op")
+    | _, _ => (st, "bad-op")
+  | "rclose" :: rest =>
+    match kv rest "name" with
+    | some n =>
+      match findReader st.rs n with
+      | some _ => ({ st with rs := st.rs.filter (·.1 ≠ n) }, "ok")
+      | none => (st, "bad-op")
+    | none => (st, "bad-op")
+  | "race" :: rest =>
+    match (kv rest "recs").bind (fun s => (splitComma s).mapM ofHex) with
+    | some ds =>
+      if !g.isOpen then (st, "bad-op") else
+      match raceWrites (touchFrom g g.minIndex) ds with
+      | some g' => ({ st with g := g' }, "race ok " ++ dump g')
+      | none => (st, "bad-op")
+    | none => (st, "bad-op")
+  | ["prune"] =>
+    if !g.isOpen then (st, "bad-op") else
+    let (_, rem) := checkTotalSizeLimit maxRemove g
+    let (g', o) := step g toks
+    ({ g := g', rs := pinReaders g rem st.rs }, o)
+  | op :: _ =>
+    if (op = "flip" ∨ op = "recover") ∧ !st.rs.isEmpty then (st, "bad-op") else
+    let (g', o) := step g toks
+    ({ g := g', rs := if g'.isOpen then st.rs else [] }, o)
+  | [] => (st, "bad-op")
+
+def machine : Machine := { σ := St, init := {}, step := stepR }
 
 end Tmv.Drv.C15
 
